@@ -164,6 +164,9 @@ where
 {
     let tx = safe_apply_args(tx, args)?;
 
+    // the body of a transaction compiled earlier on this instance must not size this one
+    compiler.reset();
+
     let max_optimize_rounds = max_optimize_rounds.max(3);
 
     let mut last_eval = None;
